@@ -869,7 +869,13 @@ func callSMT(e *ECall, env *Env) Term {
 		return T(SBool, "(select (map.dom %s) %s)", a[0].S, a[1].S)
 	case "mget":
 		need(2)
-		return T(a[0].Sort.Elem, "(select (map.val %s) %s)", a[0].S, a[1].S)
+		r := T(a[0].Sort.Elem, "(select (map.val %s) %s)", a[0].S, a[1].S)
+		if a[0].Ty != nil {
+			if mt, ok := a[0].Ty.Underlying().(*types.Map); ok {
+				r.Ty = mt.Elem()
+			}
+		}
+		return r
 	case "in": // in(e, seq)
 		need(2)
 		if a[1].Sort.Kind != KSeq {
